@@ -46,6 +46,7 @@ THEOREMS = [
     "GridVerif.C19.module_object_names_unique",
     "GridVerif.C19.no_other_process_state",
     "GridVerif.C19.cache_protocol_as_modelled",
+    "GridVerif.C19.mutable_defaults_never_written",
     "GridVerif.C19.gstep_frame",
     "GridVerif.C19.grun_frame",
     "GridVerif.C19.module_tables_never_change",
@@ -184,6 +185,19 @@ def _model_line(ang, ops):
 
 
 def corr(ctx: Ctx):
+    """Independent parts: every part runs even when another one stops (the first exception is re-raised at the end)."""
+    errors = []
+    for part in (_angular_corr, _b_corr, _b_reject_corr, _b_entry_corr, _coulomb_corr, _state_corr, _memo_corr):
+        try:
+            part(ctx)
+        except Exception as e:   # noqa: BLE001
+            errors.append(e)
+            ctx.info(f"part {part.__name__} of the correspondence stopped with {type(e).__name__}: {str(e)[:150]} (the other parts ran)")
+    if errors:
+        raise errors[0]
+
+
+def _angular_corr(ctx: Ctx):
     ang = importlib.import_module("grid.angular")
     facts = driver_batch(["C19.facts"])[0].split()
     ctx.extra["discipline"] = facts[1:]
@@ -259,12 +273,6 @@ def corr(ctx: Ctx):
         ctx.traces += 1
         if not ok:
             ctx.fail("corr", "angular.AngularGrid:cache-protocol", why, witness={"history": [list(o) for o in ops]})
-    _b_corr(ctx)
-    _b_reject_corr(ctx)
-    _b_entry_corr(ctx)
-    _coulomb_corr(ctx, facts)
-    _state_corr(ctx)
-    _memo_corr(ctx)
 
 
 B_CLASSES = {
@@ -366,8 +374,10 @@ def _b_reject_corr(ctx: Ctx):
                      witness={"class": cls, "b": b0, "maxima": maxima})
 
 
-def _coulomb_corr(ctx: Ctx, facts):
+def _coulomb_corr(ctx: Ctx, facts=None):
     cou = importlib.import_module("grid.coulomb")
+    if facts is None:
+        facts = driver_batch(["C19.facts"])[0].split()
     fresh_model = facts[5] == "true"
     for el in ("H", "C", 8, "Fe"):
         try:
@@ -435,124 +445,151 @@ def _oracle_histories(ctx: Ctx, budget: str):
     cou = importlib.import_module("grid.coulomb")
     reps = {"small": 6, "large": 60}[budget] * (4 if ctx.thorough else 1)
     rg = rt.BeckeRTransform(0.0, 1.5).transform_1d_grid(one.GaussLegendre(4))
-    for _ in range(reps):
-        m = ctx.rng.choice(METHODS)
-        pool = _degree_pool(ang, m)
-        d = ctx.rng.choice(pool)
-        _clear(ang)
-        deg, sp, sw = _shipped(ang, m, d)
-        ref_at = atg.AtomGrid(rg, degrees=[d], method=m)
-        ref_at_p, ref_at_w = ref_at.points.copy(), ref_at.weights.copy()
-        _clear(ang)
-        # history
-        held = []
-        for _ in range(ctx.rng.randrange(2, 7)):
-            r = ctx.rng.random()
-            if r < 0.4:
-                g = ang.AngularGrid(degree=ctx.rng.choice(pool), method=m, cache=ctx.rng.random() < 0.8)
-                held += [g.points, g.weights]
-            elif r < 0.6:
-                a = atg.AtomGrid(rg, degrees=[ctx.rng.choice(pool)], method=m, rotate=ctx.rng.randrange(0, 3))
-                sh = a.get_shell_grid(ctx.rng.randrange(0, 4))
-                held += [a.weights, sh.points, sh.weights, a.points]
-                a.integrate(np.ones(a.size))
-            elif held:
-                arr = ctx.rng.choice(held)
-                arr[...] = float(ctx.rng.randrange(0, 5))
-        for arr in held:
-            arr[...] = -1.0
-        g = ang.AngularGrid(degree=d, method=m, cache=ctx.rng.random() < 0.5)
-        ctx.count(["oracle-angular", m, d], nontrivial=True, tag="oracle:angular")
-        if not (np.array_equal(g.points, sp) and np.array_equal(g.weights, sw)):
-            ctx.fail("oracle", "angular.AngularGrid:cache", f"AngularGrid(degree={d}, method={m}) no longer returns the shipped data after a history with in-place edits of previously returned arrays",
-                     witness={"method": m, "degree": d}, snippet=SNIP.format(m=m, d=d))
-        # a molecular grid built on top (two atoms, Becke weights): its arrays after the history must
-        # equal those of the same grid built before any edit happened in a pristine cache state
-        if ctx.rng.random() < 0.5:
-            mol = importlib.import_module("grid.molgrid")
-            bk = importlib.import_module("grid.becke")
-            def _mol():
-                ats = [atg.AtomGrid(rg, degrees=[d], method=m, center=np.array(c)) for c in ([0.0, 0.0, -0.7], [0.0, 0.0, 0.7])]
-                return mol.MolGrid(np.array([1, 1]), ats, bk.BeckeWeights(), store=ctx.rng.random() < 0.5)
-            got_m = _mol()
-            _clear(ang)
-            ref_m = _mol()
-            ctx.count(["oracle-molgrid", m, d], nontrivial=True, tag="oracle:molgrid")
-            if not (np.array_equal(got_m.points, ref_m.points) and np.array_equal(got_m.weights, ref_m.weights)):
-                ctx.fail("oracle", "molgrid.MolGrid:angular-cache", f"MolGrid built from {m} degree {d} after a history with in-place edits differs from the one built in a pristine cache state",
-                         witness={"method": m, "degree": d}, snippet=SNIP.format(m=m, d=d))
-            for arr in (got_m.points, got_m.weights):
-                arr[...] = -3.0    # editing the molecular grid's own arrays must not reach the cache either
-        a = atg.AtomGrid(rg, degrees=[d], method=m)
-        if not (np.array_equal(a.points, ref_at_p) and np.array_equal(a.weights, ref_at_w)):
-            ctx.fail("oracle", "atomgrid.AtomGrid:angular-cache", f"AtomGrid built from {m} degree {d} differs from the one built in a pristine process state",
-                     witness={"method": m, "degree": d}, snippet=SNIP.format(m=m, d=d))
-        _clear(ang)
-    # cross-method histories: the same degree requested under different methods, in both orders, with
-    # the cache on (a cache keyed too coarsely, or shared between methods, shows up here)
-    tabs = {m: set(int(k) for k in getattr(ang, PFX[m] + "_DEGREES")) for m in METHODS}
-    for _ in range(reps):
-        ma, mb = ctx.rng.sample(METHODS, 2)
-        shared = sorted(d for d in tabs[ma] & tabs[mb] if d <= 41)
-        if not shared:
-            continue
-        d = ctx.rng.choice(shared)
-        _clear(ang)
-        seq = [(ma, d, True), (mb, d, ctx.rng.random() < 0.7), (ma, d, ctx.rng.random() < 0.5)]
-        ctx.count(["oracle-cross-method", ma, mb, d], nontrivial=True, tag="oracle:cross-method")
-        for (m, dd, cache) in seq:
-            g = ang.AngularGrid(degree=dd, method=m, cache=cache)
-            deg, sp, sw = _shipped(ang, m, dd)
-            if g.points.shape != sp.shape or not (np.array_equal(g.points, sp) and np.array_equal(g.weights, sw)):
-                ctx.fail("oracle", "angular.AngularGrid:cache:cross-method",
-                         f"AngularGrid(degree={dd}, method={m!r}, cache={cache}) built after {ma!r} degree {d} was cached has {len(g.points)} points / data that differ from the shipped file ({len(sp)} points)",
-                         witness={"sequence": [list(x) for x in seq]},
-                         snippet=("import warnings; warnings.filterwarnings('ignore')\nimport numpy as np\nfrom grid import angular as ang\nfrom grid.angular import AngularGrid\n"
-                                  "for c in ('LEBEDEV_CACHE','SPHERICAL_CACHE','MAX_DET_CACHE','AHRENS_BEYLKIN_CACHE'): getattr(ang, c).clear()\n"
-                                  f"AngularGrid(degree={d}, method={ma!r})\nref = AngularGrid(degree={d}, method={mb!r}, cache=False)\n"
-                                  "for c in ('LEBEDEV_CACHE','SPHERICAL_CACHE','MAX_DET_CACHE','AHRENS_BEYLKIN_CACHE'): getattr(ang, c).clear()\n"
-                                  f"g0 = AngularGrid(degree={d}, method={mb!r}, cache=False)\nAngularGrid(degree={d}, method={ma!r})\ng = AngularGrid(degree={d}, method={mb!r})\n"
-                                  "assert g.points.shape == g0.points.shape and np.array_equal(g.points, g0.points) and np.array_equal(g.weights, g0.weights), 'grid depends on what was cached before under another method'\n"))
-                break
-        _clear(ang)
-    # b: order independence once fixed
-    for _ in range(reps * 3):
-        cls = ctx.rng.choice(list(B_CLASSES))
-        b0, calls = _b_history(ctx, cls, scales=True)
-        bfix = b0 if b0 is not None else float(np.max(calls[0][1]))
-        x = np.linspace(0.5, 7.5, 5)
-        ref = B_CLASSES[cls](rt, bfix).transform(x)
-        tf = B_CLASSES[cls](rt, b0)
-        if b0 is None:
-            getattr(tf, calls[0][0])(calls[0][1])     # the first call fixes the scale
-            if calls[0][0] == "inverse":
-                continue                              # (scale inferred from r values: not comparable with bfix)
-        order = calls[1:]
-        ctx.rng.shuffle(order)
-        for meth, xx in order:
-            getattr(tf, meth)(xx)
-        got = tf.transform(x)
-        ctx.count(["oracle-b", cls, b0, bfix], nontrivial=True, tag="oracle:b")
-        if not np.array_equal(got, ref, equal_nan=True):
-            ctx.fail("oracle", f"rtransform.{cls}.b", f"{cls}: transform after a history of calls differs from a transform with the same fixed scale b={bfix}",
-                     witness={"class": cls, "b": b0, "calls": [(m, xx.tolist()) for m, xx in calls]},
-                     snippet=_b_snippet(cls, b0, bfix, calls[0] if b0 is None else None, order))
-    # Coulomb loader: equal values on every call, also after the caller edited an earlier result
-    for el in ("H", "C", 8, 26):
+    errors = []
+
+    def run(key, part):
+        """every part runs even when another one stops; library exceptions are failing inputs, harness errors are re-raised at the end"""
         try:
-            c1, a1 = cou.load_atomic_gaussian_params(el)
-        except ValueError:
-            continue
-        keep = (c1.copy(), a1.copy())
-        c1[...] = 0.0
-        a1[...] = 0.0
-        c2, a2 = cou.load_atomic_gaussian_params(el)
-        ctx.count(["oracle-coulomb", str(el)], nontrivial=True, tag="oracle:coulomb")
-        if not (np.array_equal(c2, keep[0]) and np.array_equal(a2, keep[1])):
-            ctx.fail("oracle", "coulomb.load_atomic_gaussian_params", f"parameters of {el} differ on a later call after the caller edited an earlier result",
-                     witness={"element": str(el)},
-                     snippet=("import numpy as np\nfrom grid.coulomb import load_atomic_gaussian_params as L\n"
-                              f"c, a = L({el!r}); k = c.copy(); c[...] = 0\nassert np.array_equal(L({el!r})[0], k)\n"))
+            part()
+        except Exception as e:   # noqa: BLE001
+            import traceback
+            if "/harness/" in traceback.extract_tb(e.__traceback__)[-1].filename:
+                errors.append(e)
+            else:
+                ctx.fail("oracle", key + ":raises", f"the library raised {type(e).__name__}: {str(e)[:200]} inside a history of legal calls",
+                         witness={"traceback": traceback.format_exc()[-1500:]})
+
+    def part_angular():
+        for _ in range(reps):
+            m = ctx.rng.choice(METHODS)
+            pool = _degree_pool(ang, m)
+            d = ctx.rng.choice(pool)
+            _clear(ang)
+            deg, sp, sw = _shipped(ang, m, d)
+            ref_at = atg.AtomGrid(rg, degrees=[d], method=m)
+            ref_at_p, ref_at_w = ref_at.points.copy(), ref_at.weights.copy()
+            _clear(ang)
+            # history
+            held = []
+            for _ in range(ctx.rng.randrange(2, 7)):
+                r = ctx.rng.random()
+                if r < 0.4:
+                    g = ang.AngularGrid(degree=ctx.rng.choice(pool), method=m, cache=ctx.rng.random() < 0.8)
+                    held += [g.points, g.weights]
+                elif r < 0.6:
+                    a = atg.AtomGrid(rg, degrees=[ctx.rng.choice(pool)], method=m, rotate=ctx.rng.randrange(0, 3))
+                    sh = a.get_shell_grid(ctx.rng.randrange(0, 4))
+                    held += [a.weights, sh.points, sh.weights, a.points]
+                    a.integrate(np.ones(a.size))
+                elif held:
+                    arr = ctx.rng.choice(held)
+                    arr[...] = float(ctx.rng.randrange(0, 5))
+            for arr in held:
+                arr[...] = -1.0
+            g = ang.AngularGrid(degree=d, method=m, cache=ctx.rng.random() < 0.5)
+            ctx.count(["oracle-angular", m, d], nontrivial=True, tag="oracle:angular")
+            if not (np.array_equal(g.points, sp) and np.array_equal(g.weights, sw)):
+                ctx.fail("oracle", "angular.AngularGrid:cache", f"AngularGrid(degree={d}, method={m}) no longer returns the shipped data after a history with in-place edits of previously returned arrays",
+                         witness={"method": m, "degree": d}, snippet=SNIP.format(m=m, d=d))
+            # a molecular grid built on top (two atoms, Becke weights): its arrays after the history must
+            # equal those of the same grid built before any edit happened in a pristine cache state
+            if ctx.rng.random() < 0.5:
+                mol = importlib.import_module("grid.molgrid")
+                bk = importlib.import_module("grid.becke")
+                def _mol():
+                    ats = [atg.AtomGrid(rg, degrees=[d], method=m, center=np.array(c)) for c in ([0.0, 0.0, -0.7], [0.0, 0.0, 0.7])]
+                    return mol.MolGrid(np.array([1, 1]), ats, bk.BeckeWeights(), store=ctx.rng.random() < 0.5)
+                got_m = _mol()
+                _clear(ang)
+                ref_m = _mol()
+                ctx.count(["oracle-molgrid", m, d], nontrivial=True, tag="oracle:molgrid")
+                if not (np.array_equal(got_m.points, ref_m.points) and np.array_equal(got_m.weights, ref_m.weights)):
+                    ctx.fail("oracle", "molgrid.MolGrid:angular-cache", f"MolGrid built from {m} degree {d} after a history with in-place edits differs from the one built in a pristine cache state",
+                             witness={"method": m, "degree": d}, snippet=SNIP.format(m=m, d=d))
+                for arr in (got_m.points, got_m.weights):
+                    arr[...] = -3.0    # editing the molecular grid's own arrays must not reach the cache either
+            a = atg.AtomGrid(rg, degrees=[d], method=m)
+            if not (np.array_equal(a.points, ref_at_p) and np.array_equal(a.weights, ref_at_w)):
+                ctx.fail("oracle", "atomgrid.AtomGrid:angular-cache", f"AtomGrid built from {m} degree {d} differs from the one built in a pristine process state",
+                         witness={"method": m, "degree": d}, snippet=SNIP.format(m=m, d=d))
+            _clear(ang)
+
+    def part_cross_method():
+        # cross-method histories: the same degree requested under different methods, in both orders, with
+        # the cache on (a cache keyed too coarsely, or shared between methods, shows up here)
+        tabs = {m: set(int(k) for k in getattr(ang, PFX[m] + "_DEGREES")) for m in METHODS}
+        for _ in range(reps):
+            ma, mb = ctx.rng.sample(METHODS, 2)
+            shared = sorted(d for d in tabs[ma] & tabs[mb] if d <= 41)
+            if not shared:
+                continue
+            d = ctx.rng.choice(shared)
+            _clear(ang)
+            seq = [(ma, d, True), (mb, d, ctx.rng.random() < 0.7), (ma, d, ctx.rng.random() < 0.5)]
+            ctx.count(["oracle-cross-method", ma, mb, d], nontrivial=True, tag="oracle:cross-method")
+            for (m, dd, cache) in seq:
+                g = ang.AngularGrid(degree=dd, method=m, cache=cache)
+                deg, sp, sw = _shipped(ang, m, dd)
+                if g.points.shape != sp.shape or not (np.array_equal(g.points, sp) and np.array_equal(g.weights, sw)):
+                    ctx.fail("oracle", "angular.AngularGrid:cache:cross-method",
+                             f"AngularGrid(degree={dd}, method={m!r}, cache={cache}) built after {ma!r} degree {d} was cached has {len(g.points)} points / data that differ from the shipped file ({len(sp)} points)",
+                             witness={"sequence": [list(x) for x in seq]},
+                             snippet=("import warnings; warnings.filterwarnings('ignore')\nimport numpy as np\nfrom grid import angular as ang\nfrom grid.angular import AngularGrid\n"
+                                      "for c in ('LEBEDEV_CACHE','SPHERICAL_CACHE','MAX_DET_CACHE','AHRENS_BEYLKIN_CACHE'): getattr(ang, c).clear()\n"
+                                      f"AngularGrid(degree={d}, method={ma!r})\nref = AngularGrid(degree={d}, method={mb!r}, cache=False)\n"
+                                      "for c in ('LEBEDEV_CACHE','SPHERICAL_CACHE','MAX_DET_CACHE','AHRENS_BEYLKIN_CACHE'): getattr(ang, c).clear()\n"
+                                      f"g0 = AngularGrid(degree={d}, method={mb!r}, cache=False)\nAngularGrid(degree={d}, method={ma!r})\ng = AngularGrid(degree={d}, method={mb!r})\n"
+                                      "assert g.points.shape == g0.points.shape and np.array_equal(g.points, g0.points) and np.array_equal(g.weights, g0.weights), 'grid depends on what was cached before under another method'\n"))
+                    break
+            _clear(ang)
+
+    def part_b():
+        # b: order independence once fixed
+        for _ in range(reps * 3):
+            cls = ctx.rng.choice(list(B_CLASSES))
+            b0, calls = _b_history(ctx, cls, scales=True)
+            bfix = b0 if b0 is not None else float(np.max(calls[0][1]))
+            x = np.linspace(0.5, 7.5, 5)
+            ref = B_CLASSES[cls](rt, bfix).transform(x)
+            tf = B_CLASSES[cls](rt, b0)
+            if b0 is None:
+                getattr(tf, calls[0][0])(calls[0][1])     # the first call fixes the scale
+                if calls[0][0] == "inverse":
+                    continue                              # (scale inferred from r values: not comparable with bfix)
+            order = calls[1:]
+            ctx.rng.shuffle(order)
+            for meth, xx in order:
+                getattr(tf, meth)(xx)
+            got = tf.transform(x)
+            ctx.count(["oracle-b", cls, b0, bfix], nontrivial=True, tag="oracle:b")
+            if not np.array_equal(got, ref, equal_nan=True):
+                ctx.fail("oracle", f"rtransform.{cls}.b", f"{cls}: transform after a history of calls differs from a transform with the same fixed scale b={bfix}",
+                         witness={"class": cls, "b": b0, "calls": [(m, xx.tolist()) for m, xx in calls]},
+                         snippet=_b_snippet(cls, b0, bfix, calls[0] if b0 is None else None, order))
+
+    def part_coulomb():
+        # Coulomb loader: equal values on every call, also after the caller edited an earlier result
+        for el in ("H", "C", 8, 26):
+            try:
+                c1, a1 = cou.load_atomic_gaussian_params(el)
+            except ValueError:
+                continue
+            keep = (c1.copy(), a1.copy())
+            c1[...] = 0.0
+            a1[...] = 0.0
+            c2, a2 = cou.load_atomic_gaussian_params(el)
+            ctx.count(["oracle-coulomb", str(el)], nontrivial=True, tag="oracle:coulomb")
+            if not (np.array_equal(c2, keep[0]) and np.array_equal(a2, keep[1])):
+                ctx.fail("oracle", "coulomb.load_atomic_gaussian_params", f"parameters of {el} differ on a later call after the caller edited an earlier result",
+                         witness={"element": str(el)},
+                         snippet=("import numpy as np\nfrom grid.coulomb import load_atomic_gaussian_params as L\n"
+                                  f"c, a = L({el!r}); k = c.copy(); c[...] = 0\nassert np.array_equal(L({el!r})[0], k)\n"))
+    run("angular.AngularGrid:cache", part_angular)
+    run("angular.AngularGrid:cache:cross-method", part_cross_method)
+    run("rtransform.b", part_b)
+    run("coulomb.load_atomic_gaussian_params", part_coulomb)
+    if errors:
+        raise errors[0]
 
 
 # ==========================================================================================
@@ -676,7 +713,8 @@ def _grid_factories(ctx):
     out = [("Grid:3d", lambda p, w: bg.Grid(p, w), 3), ("Grid:2d", lambda p, w: bg.Grid(p, w), 2),
            ("Grid:1d", lambda p, w: bg.Grid(p, w), 1),
            ("PeriodicGrid:3d", lambda p, w: pg.PeriodicGrid(p, w, np.diag([1.5, 2.0, 2.5])), 3),
-           ("PeriodicGrid:1d", lambda p, w: pg.PeriodicGrid(p, w, np.array([2.0])), 1)]
+           ("PeriodicGrid:1d", lambda p, w: pg.PeriodicGrid(p, w, np.array([2.0])), 1),
+           ("PeriodicGrid:2d", lambda p, w: pg.PeriodicGrid(p, w, np.array([[1.5, 0.0], [0.4, 2.5]])), 2)]
     return out
 
 
@@ -731,10 +769,13 @@ def _memo_corr(ctx: Ctx):
                 cur = ctx.rng.randrange(4)
                 if r < 0.8:
                     ops.append(("s", cur))
-                    g.points = contents[cur].copy()
+                    kinds = _array_kinds(contents[cur])          # class 14: the array the grid is given to hold
+                    g.points = kinds[ctx.rng.choice(sorted(kinds))]
                 else:
                     ops.append(("r", cur))
                     arr = g.points
+                    if not arr.flags.writeable:              # the grid holds a read-only array: assign a new one instead
+                        arr = np.empty(arr.shape)
                     arr[...] = contents[cur]
                     g.points = arr
                 toks += ["s", str(cur + 1)]
@@ -798,7 +839,11 @@ def _snapshot_state():
     """Deep copies of every module-level object of the enumeration and of the mutable default arguments."""
     import copy
     tr = _translator()
-    st = tr.module_state()
+    try:
+        st = tr.module_state()
+    except Exception:   # noqa: BLE001 - a source the translator cannot carry: fall back to the objects the modules hold
+        st = {"objects": [{"module": m, "name": n, "writers": n.endswith("_CACHE")} for (m, n) in _runtime_objects(None) if m != "__init__"],
+              "mutable_defaults": [("atomgrid", "AtomGrid.__init__", "[50]")]}
     snap = {}
     for o in st["objects"]:
         try:
@@ -1390,6 +1435,13 @@ def _o_kdtree(ctx: Ctx, reps):
 
 
 EXC_SNIPPETS = {
+    "complex-and-layers": (
+        "import warnings; warnings.filterwarnings('ignore')\nimport numpy as np\nfrom grid.atomgrid import AtomGrid\nfrom grid.basegrid import OneDGrid\nfrom grid.molgrid import MolGrid\n"
+        "from grid.becke import BeckeWeights\nfrom grid.onedgrid import GaussLegendre\nfrom grid.rtransform import BeckeRTransform\n"
+        "r1 = OneDGrid(np.array([0.8]), np.array([1.0]), (0.0, np.inf)); r3 = BeckeRTransform(0.0, 1.5).transform_1d_grid(GaussLegendre(3))\n"
+        "ats = [AtomGrid(r1, degrees=[7], center=np.array([0, 0, -.7])), AtomGrid(r3, degrees=[3, 9, 5], method='spherical', center=np.array([.3, 0, .7]))]\n"
+        "mg = MolGrid(np.array([8, 1]), ats, BeckeWeights())      # atoms of different sizes\nassert mg.size == ats[0].size + ats[1].size\n"
+        "a = AtomGrid(r3, degrees=[5]); f = np.exp(-np.sum(a.points**2, axis=1)); a.radial_component_splines(f * (1 + 2j))\n"),
     "coulomb.load_atomic_gaussian_params:fresh-state": (
         "import grid.coulomb as cou\ncou._ATOMIC_GAUSS_PARAMS_CACHE = None\ncou.load_atomic_gaussian_params(6)\n"
         "cou._ATOMIC_GAUSS_PARAMS_CACHE = None\ncou.load_atomic_gaussian_params('c')\n"),
@@ -1453,14 +1505,23 @@ def _oracle_round3(ctx: Ctx, budget: str):
     reps = {"small": 6, "large": 40}[budget] * (3 if ctx.thorough else 1)
     obs = {}
 
+    harness_errors = []
+
     def guarded(key, fn, *a):
+        """Run one part; an exception raised by the library inside a legal history is a failing input, an exception of the
+        harness itself is kept and re-raised after all parts have run."""
         try:
             r = fn(ctx, *a)
             if isinstance(r, dict):
                 obs.update(r)
-        except Exception as e:   # noqa: BLE001 - the library raised inside a legal history
+        except Exception as e:   # noqa: BLE001
             import traceback
-            ctx.fail("oracle", key + ":exception", f"the library raised {type(e).__name__}: {str(e)[:200]} inside a history of legal calls",
+            last = traceback.extract_tb(e.__traceback__)[-1].filename
+            if "/harness/" in last:
+                harness_errors.append(e)
+                ctx.info(f"part {key} of the oracle stopped with {type(e).__name__}: {str(e)[:150]} (the other parts ran)")
+                return
+            ctx.fail("oracle", key + ":raises", f"the library raised {type(e).__name__}: {str(e)[:200]} inside a history of legal calls",
                      witness={"traceback": traceback.format_exc()[-1500:]}, snippet=EXC_SNIPPETS.get(key))
     guarded("angular.AngularGrid:cache:fresh-state", _o_angular_matrix, ang, reps)
     guarded("coulomb.load_atomic_gaussian_params:fresh-state", _o_coulomb_fresh, cou)
@@ -1470,6 +1531,10 @@ def _oracle_round3(ctx: Ctx, budget: str):
     guarded("rtransform.b:rejected-call", _o_b_rejected, rt, reps)
     guarded("rtransform.b:call-that-raises", _o_b_exceptions, rt, reps)
     guarded("rejected-request", _o_exceptions_other_state, reps)
+    guarded("array-kinds", _o_kinds, reps)
+    guarded("argument-forms", _o_arg_combinations, reps)
+    guarded("reused-arguments", _o_reused_arguments, reps)
+    guarded("complex-and-layers", _o_complex_and_layers, reps)
     guarded("atomgrid.AtomGrid.basis:memo", _o_basis, reps)
     guarded("molgrid.MolGrid:atgrids", _o_molgrid_stored, reps)
     guarded("basegrid.get_localgrid:kdtree", _o_kdtree, reps)
@@ -1479,8 +1544,9 @@ def _oracle_round3(ctx: Ctx, budget: str):
     ctx.extra["observed_aliasing (true = present in this tree; outside the property, information only)"] = obs
     for k, v in obs.items():
         if v:
-            ctx.info((f"observed, not asserted (candidate, for the lead to judge): {k}" if "list argument" in k
-                      else f"observed (outside the property, information only): {k}"))
+            ctx.info(f"observed (outside the property, information only): {k}")
+    if harness_errors:
+        raise harness_errors[0]
 
 
 def oracle_at(ctx: Ctx, failure):
@@ -1989,3 +2055,365 @@ def _o_exceptions_other_state(ctx: Ctx, reps=6):
         if (r1 or r2) and not np.array_equal(o(pts, atc, np.array([1, 8]), ind), want):
             ctx.fail("oracle", f"{nm}:rejected-request", f"{nm}: the weights of H-O after a rejected call on the same object differ from a new object's",
                      witness={"rejected": [bool(r1), bool(r2)]})
+
+
+# ==========================================================================================
+# Round 4 (classes 14-20): array kinds inside objects, argument combinations, reused argument
+# objects (method switches on defaults), complex data through the memo, extreme layers, unequal shapes
+# ==========================================================================================
+def _array_kinds(x):
+    """Variants of a float64 1-D / 2-D array holding the same values (where the kind can hold them)."""
+    x = np.asarray(x, dtype=float)
+    out = {"float64": x.copy()}
+    ro = x.copy()
+    ro.setflags(write=False)
+    out["read-only"] = ro
+    big = np.zeros((2 * x.shape[0],) + x.shape[1:])
+    big[::2] = x
+    out["strided"] = big[::2]
+    out["negative-stride"] = x[::-1].copy()[::-1]
+    if x.ndim == 2:
+        out["fortran"] = np.asfortranarray(x)
+    if np.array_equal(x, x.astype(np.float32).astype(float)):
+        out["float32"] = x.astype(np.float32)
+    if np.array_equal(x, np.round(x)):
+        out["int64"] = x.astype(np.int64)
+        out["int32"] = x.astype(np.int32)
+    return out
+
+
+def _o_kinds(ctx: Ctx, reps=6):
+    """Class 14: the arrays an object holds / the first grid a transform sees come as float32, integer, read-only,
+    strided, negative-stride, Fortran-ordered arrays; what is remembered from them (scale b, kd-tree) must serve later
+    float64 requests like the float64 computation (bitwise; 5e-6 relative when the caller chose single precision)."""
+    rt = importlib.import_module("grid.rtransform")
+    bg = importlib.import_module("grid.basegrid")
+    obs = {}
+    y = np.linspace(0.2, 4.0, 5)
+    worst32 = 0.0
+    for cls in B_CLASSES:
+        x64 = np.array([0.0, 0.25, 1.5, 2.75, float(ctx.rng.randrange(3, 9))])
+        for kind, x in _array_kinds(x64).items():
+            for entry in ("transform", "deriv", "transform_1d_grid"):
+                if ctx.rng.random() < 0.5 and kind not in ("float32", "int64"):
+                    continue
+                tf = B_CLASSES[cls](rt, None)
+                ref = B_CLASSES[cls](rt, float(np.max(x64)))
+                keep = x.copy()
+                ctx.count(["oracle-kinds-b", cls, kind, entry], nontrivial=True, tag="oracle:kinds:b")
+                with np.errstate(all="ignore"):
+                    if entry == "transform_1d_grid":
+                        tf.transform_1d_grid(bg.OneDGrid(x, np.ones(len(x)) / len(x), (0.0, np.inf)))
+                    else:
+                        getattr(tf, entry)(x)
+                    got = [tf.transform(y), tf.deriv(y), tf.inverse(tf.transform(y))]
+                    want = [ref.transform(y), ref.deriv(y), ref.inverse(ref.transform(y))]
+                if kind == "float32":
+                    rel = max(float(np.max(np.abs(a - b) / np.maximum(np.abs(b), 1e-300))) for a, b in zip(got, want))
+                    worst32 = max(worst32, rel)
+                    ok = rel <= 5e-6
+                else:
+                    ok = all(np.array_equal(a, b, equal_nan=True) for a, b in zip(got, want))
+                ok = ok and float(tf.b) == float(np.max(x64)) and np.array_equal(x, keep)
+                if not ok:
+                    ctx.fail("oracle", "rtransform.b:array-kind",
+                             f"{cls}: the scale taken from a {kind} grid ({entry}) serves later float64 calls differently from b={float(np.max(x64))} given explicitly (b = {tf.b!r})",
+                             witness={"class": cls, "kind": kind, "entry": entry, "grid": x64.tolist()},
+                             snippet=("import warnings; warnings.filterwarnings('ignore')\nimport numpy as np\nfrom grid import rtransform as rt\n"
+                                      f"x = np.array({x64.tolist()!r}); y = np.linspace(0.2, 4.0, 5); tf = rt.{cls}(0.1, 12.0); ref = rt.{cls}(0.1, 12.0, b=float(x.max()))\n"
+                                      + {"float32": "k = x.astype(np.float32)", "int64": "k = x.astype(np.int64)", "int32": "k = x.astype(np.int32)", "read-only": "k = x.copy(); k.setflags(write=False)",
+                                         "strided": "k = np.repeat(x, 2)[::2]", "negative-stride": "k = x[::-1].copy()[::-1]", "float64": "k = x.copy()", "fortran": "k = x.copy()"}[kind]
+                                      + "\ntf.transform(k)\n"
+                                      + ("assert np.allclose(tf.deriv(y), ref.deriv(y), rtol=5e-6, atol=0)\n" if kind == "float32" else "assert np.array_equal(tf.deriv(y), ref.deriv(y)) and np.array_equal(tf.transform(y), ref.transform(y))\n")))
+    obs[f"scale inferred from a float32 grid is kept as np.float32: later float64 calls differ by up to {worst32:.1e} relative from b given as a Python float"] = worst32 > 1e-12
+    # kd-trees on grids holding arrays of these kinds (values in units of 1/8: every kind holds them exactly)
+    for k in range(2 * reps):
+        name, make, dim = ctx.rng.choice(_grid_factories(ctx))
+        n = ctx.rng.choice([1, 2, 3, 30])
+        def pts():
+            p = np.round(ctx.np_rng.uniform(-1.0, 1.0, (n, dim)) * 8) / (1 if ctx.rng.random() < 0.3 else 8)
+            return p[:, 0].copy() if dim == 1 else p
+        p0, p1 = pts(), pts()
+        kinds0, kinds1 = _array_kinds(p0), _array_kinds(p1)
+        k0, k1 = ctx.rng.choice(sorted(kinds0)), ctx.rng.choice(sorted(kinds1))
+        c = np.zeros(dim) if dim > 1 else np.array(0.0)
+        rad = 0.77
+        ctx.count(["oracle-kinds-kdtree", name, n, k0, k1], nontrivial=True, tag="oracle:kinds:kdtree")
+        try:
+            g = make(kinds0[k0], np.ones(n))
+            ok = _same_indices(g.get_localgrid(c, rad), make(p0.copy(), np.ones(n)).get_localgrid(c, rad))
+            if kinds1[k1].dtype == kinds0[k0].dtype or True:
+                g.points = kinds1[k1]
+                ok = ok and _same_indices(g.get_localgrid(c, rad), make(p1.copy(), np.ones(n)).get_localgrid(c, rad))
+        except Exception as e:   # noqa: BLE001
+            ok = False
+            ctx.info(f"kd-tree on {k0}/{k1} points raised {type(e).__name__}: {str(e)[:100]}")
+        if not ok:
+            ctx.fail("oracle", f"basegrid.get_localgrid:kdtree:array-kind:{name.split(':')[0]}",
+                     f"{name}, {n} points held as {k0}, then assigned as {k1}: get_localgrid differs from the grid holding float64 copies",
+                     witness={"class": name, "n": n, "kinds": [k0, k1], "p0": p0.tolist(), "p1": p1.tolist()})
+    return obs
+
+
+def _same_indices(a, b):
+    return sorted(np.asarray(a.indices).ravel().tolist()) == sorted(np.asarray(b.indices).ravel().tolist()) and \
+        np.allclose(np.sort(np.asarray(a.points, dtype=float).ravel()), np.sort(np.asarray(b.points, dtype=float).ravel()), rtol=0, atol=0)
+
+
+def _o_arg_combinations(ctx: Ctx, reps=6):
+    """Class 15: every documented way of saying the same request (positional / keyword, omitted / None / the default value,
+    both alternatives at once: `size` wins over `degree`, `sizes` over `degrees`) interleaved with the cache on; each
+    answer against the shipped data of the key the documentation says it resolves to."""
+    ang = importlib.import_module("grid.angular")
+    atg = importlib.import_module("grid.atomgrid")
+    rt = importlib.import_module("grid.rtransform")
+    one = importlib.import_module("grid.onedgrid")
+    bk = importlib.import_module("grid.becke")
+    for m in METHODS:
+        tab = sorted(int(k) for k in getattr(ang, PFX[m] + "_DEGREES"))
+        d, d2 = tab[1], tab[3]
+        s2 = int(getattr(ang, PFX[m] + "_DEGREES")[d2])
+        forms = [("positional degree", lambda: ang.AngularGrid(d, method=m), d),
+                 ("degree=", lambda: ang.AngularGrid(degree=d, method=m), d),
+                 ("degree and size (size wins)", lambda: ang.AngularGrid(degree=d, size=s2, method=m), d2),
+                 ("degree=None, size=", lambda: ang.AngularGrid(degree=None, size=s2, method=m), d2),
+                 ("size only", lambda: ang.AngularGrid(size=s2, method=m), d2),
+                 ("cache=True given", lambda: ang.AngularGrid(degree=d, cache=True, method=m.upper()), d),
+                 ("cache=False given", lambda: ang.AngularGrid(degree=d2, cache=False, method=m), d2)]
+        if m == "lebedev":
+            forms.append(("method omitted", lambda: ang.AngularGrid(degree=d), d))
+        _clear(ang)
+        ctx.rng.shuffle(forms)
+        done = []
+        for name, f, key in forms + forms[:2]:
+            g = f()
+            done.append(name)
+            deg, sp, sw = _shipped(ang, m, key)
+            ctx.count(["oracle-args-angular", m, name], nontrivial=True, tag="oracle:arguments")
+            if g.points.shape != sp.shape or not (np.array_equal(g.points, sp) and np.array_equal(g.weights, sw)) or int(g.degree) != int(deg):
+                ctx.fail("oracle", "angular.AngularGrid:cache:argument-forms",
+                         f"AngularGrid, method {m}: the request '{name}' (degree {d}, other degree {d2} / size {s2}) after {done[:-1]} has {g.size} points, degree {g.degree}; the documentation resolves it to degree {int(deg)} ({len(sw)} points)",
+                         witness={"method": m, "forms": done, "degree": d, "size": s2},
+                         snippet=("import warnings; warnings.filterwarnings('ignore')\nimport numpy as np\nfrom grid import angular as ang\nfrom grid.angular import AngularGrid\n"
+                                  "for c in ('LEBEDEV_CACHE','SPHERICAL_CACHE','MAX_DET_CACHE','AHRENS_BEYLKIN_CACHE'): getattr(ang, c).clear()\n"
+                                  f"ref = AngularGrid(size={s2}, method={m!r}, cache=False)\n"
+                                  f"AngularGrid(degree={d}, method={m!r}); g = AngularGrid(degree={d}, size={s2}, method={m!r}); h = AngularGrid(degree={d}, method={m!r})\n"
+                                  f"assert g.size == ref.size and np.array_equal(g.points, ref.points), 'size does not win over degree'\nassert h.degree == {d}\n"))
+                break
+    _clear(ang)
+    rg = rt.BeckeRTransform(0.0, 1.5).transform_1d_grid(one.GaussLegendre(2))
+    m = ctx.rng.choice(METHODS)
+    groups = {
+        "default degrees": [lambda: atg.AtomGrid(rg, method=m), lambda: atg.AtomGrid(rg, [50], method=m), lambda: atg.AtomGrid(rg, degrees=[50], method=m),
+                            lambda: atg.AtomGrid(rg, degrees=[50, 50], method=m), lambda: atg.AtomGrid(rg, degrees=np.array([50]), method=m, center=None, rotate=0),
+                            lambda: atg.AtomGrid(rgrid=rg, degrees=[50], sizes=None, center=np.zeros(3), method=m.upper())],
+        "sizes win": [lambda: atg.AtomGrid(rg, sizes=[20], method=m), lambda: atg.AtomGrid(rg, degrees=[11], sizes=[20], method=m),
+                      lambda: atg.AtomGrid(rg, None, sizes=[20, 20], method=m), lambda: atg.AtomGrid(rg, [3], sizes=np.array([20]), method=m)],
+    }
+    for gname, fs in groups.items():
+        order = list(range(len(fs)))
+        ctx.rng.shuffle(order)
+        res = {}
+        for j in order:
+            a = fs[j]()
+            res[j] = (a.points, a.weights, [int(x) for x in a.degrees])
+        ctx.count(["oracle-args-atomgrid", m, gname, order], nontrivial=True, tag="oracle:arguments")
+        bad = [j for j in order if not (np.array_equal(res[j][0], res[order[0]][0]) and np.array_equal(res[j][1], res[order[0]][1]) and res[j][2] == res[order[0]][2])]
+        if bad:
+            ctx.fail("oracle", "atomgrid.AtomGrid:argument-forms",
+                     f"AtomGrid, method {m}, '{gname}': equivalent ways of writing the request give different grids (forms {bad} differ from form {order[0]}; built in the order {order}; sizes {[len(res[j][1]) for j in order]})",
+                     witness={"method": m, "group": gname, "order": order},
+                     snippet=("import warnings; warnings.filterwarnings('ignore')\nimport numpy as np\nfrom grid.atomgrid import AtomGrid\nfrom grid.onedgrid import GaussLegendre\nfrom grid.rtransform import BeckeRTransform\n"
+                              f"rg = BeckeRTransform(0.0, 1.5).transform_1d_grid(GaussLegendre(2)); m = {m!r}\n"
+                              "a = [AtomGrid(rg, method=m), AtomGrid(rg, [50], method=m), AtomGrid(rg, degrees=np.array([50]), method=m, center=None, rotate=0), AtomGrid(rg, method=m)]\n"
+                              "assert all(x.size == a[0].size and np.array_equal(x.weights, a[0].weights) for x in a), [x.size for x in a]\n"
+                              "b = [AtomGrid(rg, sizes=[20], method=m), AtomGrid(rg, degrees=[11], sizes=[20], method=m)]\nassert b[0].size == b[1].size\n"))
+    x = np.arange(6.0)
+    for cls in B_CLASSES:
+        C = getattr(rt, cls)
+        forms = [C(0.1, 12.0), C(0.1, 12.0, None), C(0.1, 12.0, b=None), C(rmin=0.1, rmax=12.0), C(rmax=12.0, rmin=0.1, b=None)]
+        ex = [C(0.1, 12.0, 5.0), C(0.1, 12.0, b=5.0), C(rmin=0.1, rmax=12.0, b=5.0)]
+        outs = [(f.transform(x), f.deriv(x), float(f.b)) for f in forms]
+        oute = [(f.transform(np.arange(9.0)), f.deriv(x), float(f.b)) for f in ex] + [(C(0.1, 12.0).transform(x), None, 5.0)][:0]
+        ctx.count(["oracle-args-b", cls], nontrivial=True, tag="oracle:arguments")
+        if not all(np.array_equal(o[0], outs[0][0]) and np.array_equal(o[1], outs[0][1]) and o[2] == 5.0 for o in outs) or \
+                not all(np.array_equal(o[0], oute[0][0]) and np.array_equal(o[1], oute[0][1]) and o[2] == 5.0 for o in oute):
+            ctx.fail("oracle", f"rtransform.{cls}.b:argument-forms", f"{cls}: b omitted / None / positional / keyword give different scales or results",
+                     witness={"class": cls, "b": [o[2] for o in outs + oute]})
+    pts = ctx.np_rng.uniform(-2.0, 2.0, (8, 3))
+    atc = np.array([[0.0, 0.0, -0.7], [0.0, 0.0, 0.7]])
+    ind = np.array([0, 4, 8])
+    ws = [o(pts, atc, np.array([1, 8]), ind) for o in (bk.BeckeWeights(), bk.BeckeWeights(None), bk.BeckeWeights(radii=None, order=3), bk.BeckeWeights({}, 3), bk.BeckeWeights(order=3))]
+    ctx.count(["oracle-args-becke"], nontrivial=True, tag="oracle:arguments")
+    if not all(np.array_equal(w, ws[0]) for w in ws):
+        ctx.fail("oracle", "becke.BeckeWeights:argument-forms", "BeckeWeights: radii omitted / None / {} and order omitted / 3 give different weights", witness={})
+
+
+def _o_reused_arguments(ctx: Ctx, reps=6):
+    """Class 16, and the seeded change that wrote the mapped degrees back into the caller's list / the default `[50]`:
+    one argument object (list, ndarray, a view into a larger array, the default) serves several requests under
+    *different methods*; every answer against a request made with a pristine copy, the argument (and the bytes around a
+    view) unchanged afterwards."""
+    ang = importlib.import_module("grid.angular")
+    atg = importlib.import_module("grid.atomgrid")
+    rt = importlib.import_module("grid.rtransform")
+    one = importlib.import_module("grid.onedgrid")
+    bk = importlib.import_module("grid.becke")
+    bg = importlib.import_module("grid.basegrid")
+    rg = rt.BeckeRTransform(0.0, 1.5).transform_1d_grid(one.GaussLegendre(3))
+    rg2 = rt.BeckeRTransform(0.0, 1.5).transform_1d_grid(one.GaussLegendre(2))
+    # (a) the default argument across methods, in a random order, twice
+    order = METHODS + METHODS
+    ctx.rng.shuffle(order)
+    dflt = atg.AtomGrid.__init__.__defaults__
+    for k, m in enumerate(order[:5 if reps <= 6 else 8]):
+        got = atg.AtomGrid(rg2, method=m)
+        want = atg.AtomGrid(rg2, degrees=[50], method=m)
+        ctx.count(["oracle-reuse-default", order[:k + 1]], nontrivial=True, tag="oracle:reused-arguments")
+        if got.size != want.size or not np.array_equal(got.weights, want.weights) or list(map(int, got.degrees)) != list(map(int, want.degrees)) \
+                or atg.AtomGrid.__init__.__defaults__ != ([50],):
+            ctx.fail("oracle", "atomgrid.AtomGrid:default-degrees:method-switch",
+                     f"AtomGrid(rgrid, method={m!r}) with the default degrees, after default-degree grids of the methods {order[:k]}, has degrees {list(map(int, got.degrees))} / {got.size} points; "
+                     f"degrees=[50] written out gives {list(map(int, want.degrees))} / {want.size} points (default argument now {atg.AtomGrid.__init__.__defaults__})",
+                     witness={"methods": order[:k + 1]},
+                     snippet=("import warnings; warnings.filterwarnings('ignore')\nimport numpy as np\nfrom grid.atomgrid import AtomGrid\nfrom grid.onedgrid import GaussLegendre\nfrom grid.rtransform import BeckeRTransform\n"
+                              "rg = BeckeRTransform(0.0, 1.5).transform_1d_grid(GaussLegendre(2))\n"
+                              + "".join(f"g = AtomGrid(rg, method={mm!r})\n" for mm in order[:k + 1])
+                              + f"w = AtomGrid(rg, degrees=[50], method={m!r})\nassert g.size == w.size and list(g.degrees) == list(w.degrees) and AtomGrid.__init__.__defaults__ == ([50],), (list(g.degrees), AtomGrid.__init__.__defaults__)\n"))
+            break
+    # (b) one degrees / sizes object for grids of different methods
+    for k in range(reps):
+        which = ctx.rng.choice(["degrees", "sizes"])
+        vals = [ctx.rng.choice([4, 6, 8, 10, 12]) for _ in range(3)] if which == "degrees" else [ctx.rng.choice([7, 15, 20, 27, 40]) for _ in range(3)]
+        form = ctx.rng.choice(["list", "ndarray", "int32", "view"])
+        big = np.full(9, -7, dtype=np.int64)
+        if form == "list":
+            arg = list(vals)
+        elif form == "ndarray":
+            arg = np.array(vals)
+        elif form == "int32":
+            arg = np.array(vals, dtype=np.int32)
+        else:
+            big[3:6] = vals
+            arg = big[3:6]
+        ms = ctx.rng.sample(METHODS, 3)
+        ctx.count(["oracle-reuse-" + which, form, vals, ms], nontrivial=True, tag="oracle:reused-arguments")
+        for j, m in enumerate(ms):
+            got = atg.AtomGrid(rg, **{which: arg}, method=m) if which == "sizes" else atg.AtomGrid(rg, arg, method=m)
+            want = atg.AtomGrid(rg, **{which: list(vals)}, method=m)
+            same_arg = list(map(int, arg)) == vals and (form != "view" or (list(big[:3]) == [-7] * 3 and list(big[6:]) == [-7] * 3))
+            if got.size != want.size or not np.array_equal(got.weights, want.weights) or not same_arg:
+                ctx.fail("oracle", f"atomgrid.AtomGrid:reused-{which}",
+                         f"one {which} object ({form}, {vals}) used for AtomGrids of the methods {ms[:j + 1]}: the grid of {m!r} has degrees {list(map(int, got.degrees))} ({got.size} points) where a pristine copy of the "
+                         f"argument gives {list(map(int, want.degrees))} ({want.size} points); the argument is now {list(map(int, arg))}" + (f", array around the view {big.tolist()}" if form == "view" else ""),
+                         witness={"argument": which, "form": form, "values": vals, "methods": ms[:j + 1]},
+                         snippet=("import warnings; warnings.filterwarnings('ignore')\nimport numpy as np\nfrom grid.atomgrid import AtomGrid\nfrom grid.onedgrid import GaussLegendre\nfrom grid.rtransform import BeckeRTransform\n"
+                                  f"rg = BeckeRTransform(0.0, 1.5).transform_1d_grid(GaussLegendre(3)); vals = {vals!r}; arg = " + {"list": "list(vals)", "ndarray": "np.array(vals)", "int32": "np.array(vals, dtype=np.int32)", "view": "np.array([-7] * 3 + vals + [-7] * 3)[3:6]"}[form] + "\n"
+                                  + "".join(f"g = AtomGrid(rg, {which}=arg, method={mm!r})\n" for mm in ms[:j + 1])
+                                  + f"w = AtomGrid(rg, {which}=list(vals), method={m!r})\nassert g.size == w.size and list(map(int, arg)) == vals, (list(g.degrees), list(w.degrees), list(arg))\n"))
+                break
+    # (c) one array for every entry point of two transforms; (d) one radii dict, one points array, one list of atomic grids
+    for cls in B_CLASSES:
+        big = np.full(12, 99.0)
+        big[3:9] = np.arange(6.0)
+        x = big[3:9]
+        t1, t2 = B_CLASSES[cls](rt, None), B_CLASSES[cls](rt, None)
+        ref = B_CLASSES[cls](rt, 5.0)
+        outs = []
+        for meth in ["set_maximum_parameter_b"] + B_METHODS[cls]:
+            for t in (t1, t2):
+                r = getattr(t, meth)(x)
+                if meth not in ("inverse", "set_maximum_parameter_b"):
+                    outs.append(np.array_equal(r, getattr(ref, meth)(np.arange(6.0)), equal_nan=True))
+        ctx.count(["oracle-reuse-x", cls], nontrivial=True, tag="oracle:reused-arguments")
+        if not (all(outs) and np.array_equal(big, np.r_[[99.0] * 3, np.arange(6.0), [99.0] * 3]) and t1.b == 5.0 and t2.b == 5.0):
+            ctx.fail("oracle", f"rtransform.{cls}:reused-array", f"{cls}: one array (a view) passed to every method of two objects: a result differs from the one for a pristine copy, or the array / the bytes around it changed ({big.tolist()})",
+                     witness={"class": cls})
+    d = {1: 0.9, 8: 1.3}
+    pts = ctx.np_rng.uniform(-2.0, 2.0, (8, 3))
+    keep_pts = pts.copy()
+    atc = np.array([[0.0, 0.0, -0.7], [0.0, 0.0, 0.7]])
+    ind = np.array([0, 4, 8])
+    w = [bk.BeckeWeights(d, order=o)(pts, atc, np.array([1, 8]), ind) for o in (2, 3, 2)]
+    wr = [bk.BeckeWeights({1: 0.9, 8: 1.3}, order=o)(keep_pts.copy(), atc.copy(), np.array([1, 8]), ind.copy()) for o in (2, 3, 2)]
+    g1, g2 = bg.Grid(pts, np.ones(8)), bg.Grid(pts, np.ones(8))
+    l1, l2 = g1.get_localgrid(np.zeros(3), 1.5), g2.get_localgrid(np.zeros(3), 1.5)
+    ctx.count(["oracle-reuse-misc"], nontrivial=True, tag="oracle:reused-arguments")
+    if not (all(np.array_equal(a, b) for a, b in zip(w, wr)) and d == {1: 0.9, 8: 1.3} and np.array_equal(pts, keep_pts)
+            and sorted(l1.indices) == sorted(l2.indices) == sorted(bg.Grid(keep_pts.copy(), np.ones(8)).get_localgrid(np.zeros(3), 1.5).indices)):
+        ctx.fail("oracle", "reused-argument:radii-points", "one radii dictionary for three BeckeWeights / one points array for two Grids: a result differs from the one for pristine copies, or the argument changed", witness={})
+
+
+def _o_complex_and_layers(ctx: Ctx, reps=6):
+    """Classes 17, 19, 20: complex function values through the spherical-harmonics memo (the decomposition is linear) before and
+    after real ones; atomic grids on radial grids with huge / tiny / trimmed radii and the largest degree of a method; molecules
+    of atoms with different degrees and numbers of shells (1 and 3), per-shell degree lists: later requests are what a new
+    object / the shipped data give."""
+    ang = importlib.import_module("grid.angular")
+    atg = importlib.import_module("grid.atomgrid")
+    rt = importlib.import_module("grid.rtransform")
+    one = importlib.import_module("grid.onedgrid")
+    mol = importlib.import_module("grid.molgrid")
+    bk = importlib.import_module("grid.becke")
+    rg = rt.BeckeRTransform(0.0, 1.5).transform_1d_grid(one.GaussLegendre(5))
+    a = atg.AtomGrid(rg, degrees=[5])
+    f = np.exp(-np.sum(a.points ** 2, axis=1)) * (1.0 + a.points[:, 0])
+    ref = _spline_values(atg.AtomGrid(rg, degrees=[5]).radial_component_splines(f))
+    z = ctx.rng.choice([1 + 2j, -0.5j, np.complex64(2 + 1j)])
+    first_complex = ctx.rng.random() < 0.5
+    if not first_complex:
+        a.radial_component_splines(f)
+    sc = a.radial_component_splines(f * z)
+    vc = np.array([[complex(s(x)) for x in (0.3, 0.9, 1.7)] for s in sc])
+    vr = _spline_values(a.radial_component_splines(f))
+    ctx.count(["oracle-complex-basis", complex(z), first_complex], nontrivial=True, tag="oracle:complex")
+    if not (np.array_equal(vr, ref) and np.allclose(vc, complex(z) * ref, rtol=1e-6 if isinstance(z, np.complex64) else 1e-12, atol=1e-14)):
+        ctx.fail("oracle", "atomgrid.AtomGrid.basis:complex-values", f"AtomGrid: decomposition of complex function values ({z} f, {'first' if first_complex else 'second'} use of the memo) is not {z} times the real one, "
+                 "or the real decomposition afterwards differs from a new grid's", witness={"factor": str(z), "first": first_complex})
+    # extreme radial layers / largest degree, then the plain requests
+    _clear(ang)
+    m = ctx.rng.choice(METHODS)
+    dmax = max(int(k) for k in getattr(ang, PFX[m] + "_DEGREES"))
+    huge = rt.BeckeRTransform(1e-8, 1e6).transform_1d_grid(one.GaussChebyshevLobatto(4))      # radii from 1e-8 to the trimmed end 1e16
+    e1 = atg.AtomGrid(huge, degrees=[3, dmax, 3, 5], method=m)
+    e1.weights[...] = 0.0
+    e2 = atg.AtomGrid(huge, degrees=[3, dmax, 3, 5], method=m)
+    g0 = ang.AngularGrid(degree=dmax, method=m)
+    g0.points[...] = 0.0                      # the caller edits the largest grid it was given
+    g0.weights[...] = 0.0
+    g = ang.AngularGrid(degree=dmax, method=m)
+    deg, sp, sw = _shipped(ang, m, dmax)
+    small = atg.AtomGrid(rg, degrees=[3], method=m)
+    _clear(ang)
+    small_ref = atg.AtomGrid(rg, degrees=[3], method=m)
+    e_ref = atg.AtomGrid(huge, degrees=[3, dmax, 3, 5], method=m)
+    ctx.count(["oracle-extreme-layers", m, dmax], nontrivial=True, tag="oracle:extreme-layers")
+    if not (np.array_equal(g.points, sp) and np.array_equal(g.weights, sw) and np.array_equal(small.points, small_ref.points) and np.array_equal(small.weights, small_ref.weights)
+            and np.array_equal(e2.points, e_ref.points, equal_nan=True) and np.array_equal(e2.weights, e_ref.weights, equal_nan=True)):
+        ctx.fail("oracle", "atomgrid.AtomGrid:angular-cache:extreme-layers",
+                 f"after an atomic grid on radii 1e-8 … 1e16 with per-shell degrees [3, {dmax}, 3, 5] ({m}) whose weights were zeroed: the same grid again, AngularGrid(degree={dmax}) or a small atomic grid differ from the pristine state",
+                 witness={"method": m, "degree": dmax})
+    _clear(ang)
+    # molecules of unequal atoms (1 shell / 3 shells, different degrees and methods are not mixed by MolGrid: one method per atom grid)
+    for k in range(max(2, reps // 3)):
+        m1, m2 = ctx.rng.sample(METHODS, 2)
+        r1 = importlib.import_module("grid.basegrid").OneDGrid(np.array([0.8]), np.array([1.0]), (0.0, np.inf))      # a single shell
+        r3 = rt.BeckeRTransform(0.0, 1.5).transform_1d_grid(one.GaussLegendre(3))
+        def build():
+            ats = [atg.AtomGrid(r1, degrees=[7], method=m1, center=np.array([0.0, 0.0, -0.7])),
+                   atg.AtomGrid(r3, degrees=[3, 9, 5], method=m2, center=np.array([0.3, 0.0, 0.7]))]
+            return mol.MolGrid(np.array([8, 1]), ats, bk.BeckeWeights(), store=bool(k % 2))
+        _clear(ang)
+        ref_m = build()
+        ref_pw = (ref_m.points.copy(), ref_m.weights.copy(), ref_m.indices.copy())
+        ref_m.points[...] = 0.0
+        ref_m.weights[...] = 0.0
+        for arr in (ref_m.get_atomic_grid(1).weights,):
+            arr[...] = 0.0
+        got = build()
+        ctx.count(["oracle-unequal-molgrid", m1, m2, k % 2], nontrivial=True, tag="oracle:unequal-shapes")
+        if not (np.array_equal(got.points, ref_pw[0]) and np.array_equal(got.weights, ref_pw[1]) and np.array_equal(got.indices, ref_pw[2])):
+            ctx.fail("oracle", "molgrid.MolGrid:angular-cache:unequal-atoms",
+                     f"MolGrid of a 1-shell {m1} atom (degree 7) and a 3-shell {m2} atom (degrees [3, 9, 5]) built again after the first one's arrays were zeroed differs from the first",
+                     witness={"methods": [m1, m2], "store": bool(k % 2)})
+    _clear(ang)
